@@ -206,6 +206,12 @@ func (fr *Frame) applyContract(spec *FuncSpec, fn *ssa.Function, sig *types.Sign
 	if spec.Trusted || fn == nil || fn.Blocks == nil || !e.isRepoFn(fn) {
 		e.trusted["contract of "+spec.Key] = true
 	}
+	if spec.IOEffect && e.dry == 0 {
+		if e.ioCount == "" {
+			e.ioCount = "0"
+		}
+		e.ioCount = e.define("iocalls", "Int", sIte(st.pc, "(+ "+e.ioCount+" 1)", e.ioCount))
+	}
 	cf := fr.specFrame(spec, fn, sig, args, pkg)
 	cf.parent = nil
 	pre := st.clone()
